@@ -2,3 +2,6 @@ import GMProofs.Props.C17
 import GMProofs.Props.C01
 import GMProofs.Props.C02
 import GMProofs.Props.C03
+import GMProofs.Props.C07
+import GMProofs.Props.C08
+import GMProofs.Props.C19
